@@ -297,5 +297,8 @@ def replay_on_real_code(unit, harness, bytes_, replay_path):
         return False, "real code satisfies the clause on the verifier's input (spurious counterexample)"
     if "panicked at" in out and "test result: FAILED" in out:
         m = re.search(r"panicked at ([^\n]*\n[^\n]*)", out)
-        return True, "real code panicked: " + (m.group(1) if m else "")
+        where = m.group(1) if m else ""
+        if "/kani/common.rs" in where or "replay file" in where or "replay json" in where:
+            return None, "replay harness could not read its input: " + where
+        return True, "real code panicked: " + where
     return None, "replay inconclusive: " + out[-1500:]
